@@ -139,6 +139,10 @@ def check_cfg(ctx, fx, cfg):
                 if any(needle in p2 and "/Context.children/" not in p2[:p2.index(needle) + 1] + "/" and not p2[:p2.index(needle)].endswith("/Context.children") for p2 in a2.get("paths", [])):
                     return True
         return False
+    import chan as _chan
+    for _k, _cf, _key in _chan.submit_closures(fx):
+        if _cf is not None and _cf.get("_adt"):
+            HOLDERS[_cf["_adt"]] = "a named submit object (stands for one of the two submit closures; created in the channel constructors, R05.6)"
     for o in fx.owns:
         if o["kind"] != "adt":
             continue
